@@ -2054,8 +2054,9 @@ func (ts *Service) startTask(task Task) error {
 		ts.diag.FinishedTask(et.Task.ID)
 
 		if err != nil {
-			// Stop task
-			tm.StopTask(t.ID)
+			// Stop task, but only this instance of it:
+			// by now it may have been stopped and started again.
+			tm.StopExecutingTask(et)
 
 			ts.diag.Error("task finished with error", err, keyvalue.KV("task", et.Task.ID))
 			// Save last error from task.
